@@ -72,8 +72,100 @@ def run(chk, F):
                    "`%s ? %s : %s` gives %s but `%s ? %s : %s` gives %s" % (c, a, b, sorted(x), c, b, a, sorted(y)),
                    loc, sample="?:(%s,%s,%s) %s" % (c, a, b, sorted(x)))
 
+    # same class, different types: two records (arrays, scalar sets, ranges) are different members of one class; the
+    # evaluator keeps them apart by operand tag, and the relations it cannot look into (loops over fields) stay as atoms
+    # `f(e1, e2)`.  Swapping the branches renames e1 <-> e2; the outcome must be the same for every valuation of the
+    # atoms, where atoms of relations proved symmetric by R-MIRROR are identified with their mirror image and
+    # relations are reflexive.
+    sym_fns = {q for q, _ in MIRROR_FUNCS}
+    sym_short = {q.split("::")[-1] for q in sym_fns}
+    reflexive = sym_fns | {"UTAP::TypeChecker::areAssignmentCompatible", "UTAP::TypeChecker::areInlineIfCompatible"}
+
+    def rename(x, m):
+        if isinstance(x, tuple):
+            if len(x) == 3 and x[0] == "T":
+                return ("T", x[1], m.get(x[2], x[2]))
+            return tuple(rename(y, m) for y in x)
+        return x
+
+    def canon_atom(a):
+        """-> (canonical atom, forced value or None)"""
+        if isinstance(a, tuple) and a and a[0] == "eq" and len(a) == 3:
+            x, y = sorted([a[1], a[2]], key=repr)
+            return ("eq", x, y), (True if x == y else None)
+        if isinstance(a, tuple) and a and a[0] == "call" and len(a) == 4 and str(a[1]).endswith("operator=="):
+            x, y = sorted([a[2], a[3]], key=repr)
+            return ("call", a[1], x, y), (True if x == y else None)
+        if isinstance(a, tuple) and a and a[0] == "rec" and len(a) == 4:
+            vals = [a[2], a[3]]
+            forced = True if (a[1] in reflexive or a[1] in sym_short) and vals[0] == vals[1] and "?" not in repr(vals[0]) else None
+            if a[1] in sym_fns or a[1] in sym_short:
+                vals = sorted(vals, key=repr)
+            return ("rec", a[1]) + tuple(vals), forced
+        if isinstance(a, tuple) and a and a[0] == "opaque" and len(a) >= 5:
+            fnq, vals = a[1], [v[1] if isinstance(v, tuple) and len(v) == 2 else v for v in a[3:]]
+            forced = True if (fnq in reflexive and len(vals) == 2 and vals[0] == vals[1]) else None
+            if fnq in sym_fns:
+                vals = sorted(vals, key=repr)
+            return ("opaque", fnq) + tuple(vals), forced
+        return a, None
+
+    def table(res, m):
+        out = []
+        for assign, oc in res:
+            part, ok = {}, True
+            for a, v in assign.items():
+                ca, forced = canon_atom(rename(a, m))
+                if forced is not None:
+                    if forced != v:
+                        ok = False
+                    continue
+                if ca in part and part[ca] != v:
+                    ok = False
+                part[ca] = v
+            if ok:
+                out.append((part, oc[0] == "accept"))
+        return out
+    jobs = [("INLINE_IF", "R-SYMIF", ("INT",), ("e1", "e2"))] + [(k0, "R-SYM", (), ("e0", "e1")) for k0 in COMMUTATIVE]
+    for opk, rid_, prefix, (ta, tb) in jobs:
+      c = "/".join(prefix) or opk
+      rid = rid_
+      for k_ in D:
+            res = T.row(opk, list(prefix) + [k_, k_])[0]
+            t1, t2 = table(res, {}), table(res, {ta: tb, tb: ta})
+            atoms = sorted({a for p_, _ in t1 + t2 for a in p_}, key=repr)
+            if any("'?'" in repr(a) for a in atoms):
+                # the evaluator lost an argument of a relation (a value it could not name): the two orders cannot be
+                # matched atom by atom; not armed for this class
+                chk.note("%s same-class: %s(%s, %s, %s') not decided - an atom has an unnamed argument" % (rid, opk, c, k_, k_))
+                continue
+            # the rows of each table are the paths of a decision tree: two rows with different verdicts that do not
+            # contradict each other on any atom have a common valuation
+            bad = None
+            for p1, a1 in t1:
+                for p2, a2 in t2:
+                    if a1 != a2 and all(p2.get(a, b) == b for a, b in p1.items()):
+                        bad = sorted({(short_atom(a), b) for a, b in list(p1.items()) + list(p2.items())})
+                        break
+                if bad:
+                    break
+            chk.ob(rid, "%s|%s,%s'" % (c, k_, k_), bad is None,
+                   "%s with two different operand types a, b of class %s is accepted in one operand order and rejected "
+                   "in the other when %s: a relation that decides it is applied in a fixed (first, second) order and "
+                   "is not symmetric" % ("`c ? a : b`" if opk == "INLINE_IF" else opk, k_, bad), loc,
+                   sample="%s(%s,%s') symmetric over %d atom(s)" % (opk, k_, k_, len(atoms)))
+
     mirror(chk, F)
     typekind(chk, F)
+
+
+def short_atom(a):
+    if isinstance(a, tuple) and a and a[0] == "opaque":
+        return "%s(%s)" % (str(a[1]).split("::")[-1], ", ".join(str(x[2]) if isinstance(x, tuple) and len(x) == 3 else str(x)
+                                                               for x in a[2:]))
+    if isinstance(a, tuple) and a and a[0] == "eq":
+        return "%s == %s" % (a[1], a[2])
+    return str(a)[:60]
 
 
 # ---------------------------------------------------------------------- R-MIRROR
